@@ -412,7 +412,7 @@ func raceSignature(blk string) string {
 }
 
 func writeReplay(o RunOptions, v *Violation) string {
-	dir := filepath.Join(VerifDir(), "replays")
+	dir := filepath.Join(OutDir(), "replays")
 	os.MkdirAll(dir, 0o755)
 	h := Hash64([]byte(v.Key))
 	path := filepath.Join(dir, fmt.Sprintf("%s-%016x.json", o.PropID, h))
@@ -465,7 +465,7 @@ func writeEvidence(o RunOptions, p *Prop, a *agg, nviol int, wall float64) {
 		"coverage": cov, "assumptions": p.Assumptions, "wall_s": wall, "violations": nviol,
 	}
 	b, _ := json.MarshalIndent(ev, "", " ")
-	dir := filepath.Join(VerifDir(), "evidence")
+	dir := filepath.Join(OutDir(), "evidence")
 	os.MkdirAll(dir, 0o755)
 	os.WriteFile(filepath.Join(dir, o.PropID+".json"), append(b, '\n'), 0o644)
 }
